@@ -369,13 +369,24 @@ def topo(name: str):
         links = [("a", 1, "r1", 1), ("b", 1, "r2", 1), ("r1", 2, "r2", 2), ("r1", 3, "r2", 3)]
         ev = _pings(["a", "b"], n) + [("pingip", "a", "10.0.13.2"), ("pingip", "b", "10.0.12.1"), ("dns", "a"),
                                      ("nic", "r2", 3), ("nic", "r1", 2), ("pwr", "b")]
+    elif name in ("offlink", "offlink2"):
+        # static routes whose next hop is NOT on a connected network and cannot be resolved through the table either:
+        # offlink: the route to b's subnet names r2's far-side address (inside that very subnet); offlink2: two routes whose
+        # next hops lie in each other's prefix.  Nothing can be delivered through them - and handling the packet must still end.
+        n["a"], n["b"] = _host(A, "10.0.1.1", dns=B), _host(B, "10.0.2.1")
+        r1 = [("10.0.2.0", M24, "10.0.2.1", 0)] if name == "offlink" else [("10.0.2.0", M24, "10.0.3.9", 0), ("10.0.3.0", M24, "10.0.2.9", 0)]
+        n["r1"] = _router({1: ("10.0.1.1", M24), 2: ("10.0.12.1", M30)}, r1)
+        n["r2"] = _router({1: ("10.0.2.1", M24), 2: ("10.0.12.2", M30)}, [("10.0.1.0", M24, "10.0.12.1", 0)])
+        links = [("a", 1, "r1", 1), ("b", 1, "r2", 1), ("r1", 2, "r2", 2)]
+        ev = _pings(["a", "b"], n) + [("pingip", "a", "10.0.2.1"), ("pingip", "a", "10.0.3.7"), ("pingip", "a", "10.0.12.2"),
+                                     ("pingip", "b", "10.0.12.1"), ("dns", "a"), ("nic", "r1", 2), ("pwr", "b")]
     else:
         raise ValueError(name)
     return {"name": name, "nodes": n, "links": links, "air": air, "dns_host": dns_host, "dns_ip": dns_ip,
             "events": [("tick",)] + [tuple(e) for e in ev]}
 
 
-TOPOS = ["lan", "r1", "r2s", "r2d", "r3s", "r3d", "fw", "sw2r-rrm", "sw2r-mrr", "wifi", "hostnh", "fw2", "fw2sw", "noreturn", "asym"]
+TOPOS = ["lan", "r1", "r2s", "r2d", "r3s", "r3d", "fw", "sw2r-rrm", "sw2r-mrr", "wifi", "hostnh", "fw2", "fw2sw", "noreturn", "asym", "offlink", "offlink2"]
 
 
 def build_net(spec) -> H.SimSut:
@@ -1095,11 +1106,13 @@ class IcmpIdAdapter(NetAdapter):
 # (topology, depth, state budget, time budget s).  Cheap / defect-dense topologies first.
 QUICK_PLAN = [("lan", 3, 20000, 60), ("r1", 3, 20000, 60), ("r2s", 3, 20000, 60), ("r2d", 3, 20000, 60), ("r3s", 2, 20000, 60),
               ("r3d", 2, 20000, 60), ("fw", 3, 20000, 60), ("sw2r-rrm", 2, 20000, 60), ("sw2r-mrr", 3, 20000, 60), ("wifi", 3, 20000, 60),
-              ("hostnh", 3, 20000, 60), ("fw2", 3, 20000, 60), ("fw2sw", 2, 20000, 60), ("noreturn", 3, 20000, 60), ("asym", 3, 20000, 60)]
+              ("hostnh", 3, 20000, 60), ("fw2", 3, 20000, 60), ("fw2sw", 2, 20000, 60), ("noreturn", 3, 20000, 60), ("asym", 3, 20000, 60),
+              ("offlink", 2, 20000, 60), ("offlink2", 2, 20000, 60)]
 THOROUGH_PLAN = [("lan", 6, 400000, 60), ("r1", 5, 400000, 60), ("r2s", 5, 400000, 60), ("r2d", 5, 400000, 60),
                  ("r3s", 5, 400000, 60), ("r3d", 5, 400000, 60), ("fw", 5, 400000, 60), ("sw2r-rrm", 4, 400000, 60),
                  ("sw2r-mrr", 4, 400000, 60), ("wifi", 6, 400000, 30), ("hostnh", 8, 400000, 10),
-                 ("fw2", 5, 400000, 60), ("fw2sw", 4, 400000, 60), ("noreturn", 6, 400000, 30), ("asym", 5, 400000, 60)]
+                 ("fw2", 5, 400000, 60), ("fw2sw", 4, 400000, 60), ("noreturn", 6, 400000, 30), ("asym", 5, 400000, 60),
+                 ("offlink", 5, 400000, 30), ("offlink2", 5, 400000, 30)]
 # thorough: a level is only started while the time budget (s) is not used up; the last level costs about 3 times everything
 # before it.  Measured: 250k transitions, 160 CPU-minutes in all (about 12 min on 16 free cores); every depth completes when the
 # levels before the last fit into the budget, otherwise the cap is reported.
